@@ -367,6 +367,14 @@ def check_C06(tier):
     engine_run(c, "noise-default", "NoiseMenu", lines="LinesNoiseDefault", maxlines=3, maxfiles=1, modes=("batch", "incr"), tdefs=("vdef", "plain", "nndef"))
     # a pattern anchored at both ends (^...$) and noise lines longer than the reader's buffers (8 KiB, 64 KiB) whose tail reads like a row
     engine_run(c, "noise-long", "CoreLimitMenu", lines="LinesNoiseLong", maxlines=3, maxfiles=2 if t else 1, modes=("batch", "incr"), tdefs=("anch",))
+    # follow mode (FollowFileExecutor in a child process): selects and aggregates with and without LIMIT over inputs with noise lines -- a line that
+    # yields no row shows nothing and uses up nothing of the limit
+    engine_follow_run(c, "noise", "FollowMenu", lines="LinesNoise", maxlines=3, tdefs=("plain",), sample=1500 if t else 600)
+    # the admission rule itself, per (definition, line): rows of three columns with NOT NULL / DEFAULT in every position, and tables that mix JSON
+    # and regex columns with the NOT NULL column before, at and after the first JSON column
+    r = tlc("MC_Extract", cfg_text(constants={"Dev": set(), "CaseSets": {q("rows"), q("admit")}}, invariants=["Independent", "Admission", "Emit"]), "extract-C06", workers=W, timeout=1500)
+    expect_holds(r, "Extract rules (rows, admit)"); c.add_tlc(r)
+    c.add_report(vh_replay("extract", r.replay_path, "extract-C06", env_extra={"TZ": "UTC"}), reg("TableDefinition::extract (admission) vs Extract.tla", "extract"))
     laws_trace(c, 2 if t else 1, 300 if t else 100)
     engine_sim(c, "noise", "NoiseMenu", lines="LinesNoise", maxlines=12, num=1500 if t else 120, tdefs=("plain", "bothnn"))
     engine_union(c, t)
@@ -649,7 +657,7 @@ def check_C01(tier):
 
 
 def check_C02(tier):
-    c = extract_check("C02", tier, ["jsonleaf", "jsonpath"], "TableDefinition::extract (JSON paths) vs Extract.tla")
+    c = extract_check("C02", tier, ["jsonleaf", "jsonpath", "admit"], "TableDefinition::extract (JSON paths) vs Extract.tla")
     c.rule = ("TLC enumerates JSON-path columns: 18 leaf kinds (ints incl. i64::MAX, 2^63, 2^64, 1.0, 1.5, numeric / other / timestamp strings, bool, null, homogeneous / mixed / nested arrays, object) x 8 declared types "
               "x plain / CONVERT / DEFAULT / NOT NULL, paths of length 1-3 through objects and arrays over documents with missing and wrong-kind intermediate nodes and duplicate keys, lines that are not JSON "
               "(empty, text, truncated, trailing garbage, two documents), each with a regex column on the raw line riding along. Non-trivial = the line yields a row.")
